@@ -177,3 +177,37 @@ def write_error_evidence(pid, tier, level, seed, msg, t0):
           "wall_s": round(time.time() - t0, 3), "violations": 0}
     with open(os.path.join(EVIDENCE_DIR, pid + ".json"), "w") as f:
         json.dump(ev, f, indent=1)
+
+
+class RuleAlias:
+    """Run the rules of another property's module inside this check under one rule id of this property (the rule instances keep
+    their keys, prefixed with the foreign rule id). Used where two properties rest on the same facts (e.g. C12's 'modulation and
+    its inverse cancel' on C14's constellation/partition rules)."""
+
+    def __init__(self, ck, rule, prefix=""):
+        self._ck, self._rule, self._prefix = ck, rule, prefix
+        self.explanation = ""
+
+    def rule(self, rid, text):
+        pass
+
+    def inst(self, rule, key, ok, site="", reason="", facts=None, trivial=False):
+        return self._ck.inst(self._rule, "%s%s:%s" % (self._prefix, rule, key), ok, site, reason, facts, trivial)
+
+    def ok(self, rule, key, site="", reason="", facts=None, trivial=False):
+        return self._ck.ok(self._rule, "%s%s:%s" % (self._prefix, rule, key), site, reason, facts, trivial)
+
+    def fail(self, rule, key, site="", reason="", facts=None):
+        return self._ck.fail(self._rule, "%s%s:%s" % (self._prefix, rule, key), site, reason, facts)
+
+    def floor(self, rule, what, count, minimum):
+        return self._ck.floor(self._rule, what, count, minimum)
+
+    def assume(self, text):
+        pass
+
+    def trust(self, text):
+        return self._ck.trust(text)
+
+    def note(self, text):
+        return self._ck.note(text)
